@@ -134,6 +134,29 @@ func WithGaps(t *rapid.T, b Bars) Bars {
 	return c
 }
 
+// Unordered returns a copy of the bars whose columns no longer respect low <= open, close <= high
+// on about a third of the rows (high and low swapped, the close pushed outside the range): the
+// indicators take plain numeric channels, and their documented formulas are defined for any
+// numbers. Only for C01 (formula equality); the bars are no longer Valid.
+func Unordered(t *rapid.T, b Bars) Bars {
+	cp := func(xs []float64) []float64 { return append([]float64{}, xs...) }
+	c := Bars{Class: b.Class + "+unordered", Exp: b.Exp, Open: cp(b.Open), High: cp(b.High), Low: cp(b.Low), Close: cp(b.Close), Volume: cp(b.Volume), X: cp(b.X), Y: cp(b.Y)}
+	for i := range c.Close {
+		switch rapid.IntRange(0, 5).Draw(t, "unordered") {
+		case 1:
+			c.High[i], c.Low[i] = c.Low[i], c.High[i]
+		case 3:
+			// the previous close lies strictly between a high and a low that are crossed
+			if i > 0 {
+				c.High[i], c.Low[i] = c.Close[i-1]*0.875, c.Close[i-1]*1.125
+			}
+		case 4:
+			c.Close[i] = c.High[i] * 1.25
+		}
+	}
+	return c
+}
+
 // GenBarsAny is GenBars for the properties that quantify over ALL series (termination, counts, no
 // look-ahead): in 1/8 of the draws a few values are missing.
 func GenBarsAny(t *rapid.T, n int) Bars {
